@@ -30,16 +30,24 @@ def stopReport (cfg : Cfg) (now : Int) : S → S := guard fun s =>
 /-- the RPC's answer: a `Faults` code (`faultSUCCESS` for a true/ok answer) -/
 def answer (code : Int) : S → S := emit (.answer code)
 
+/-- the checks `startProcess` makes before calling `spawn()`: the fault it raises, if any
+    (`missing`: get_execv_args() raised NotFound/NotExecutable in the file pre-check) -/
+def startRefusal (p : Proc) (missing : Bool) : Option Int :=
+  if missing then some faultNO_FILE
+  else if p.state ∈ runningStates then some faultALREADY_STARTED
+  else if p.state = .unknown then some faultFAILED
+  else if p.state = .stopping then some faultABNORMAL_TERMINATION
+  else none
+
 /-- rpcinterface.startProcess(name, wait=False): `_update` gate, file pre-check (the spawn
     result `badCmd` of the environment is already known there), state guards, spawn(),
     [reap()], SPAWN_ERROR test, transition() -/
 def rpcStart (cfg : Cfg) (now mood : Int) (res : SpawnRes) : S → S := guard fun s =>
   if Sv.ilt mood moodRUNNING then answer faultSHUTDOWN_STATE s
-  else if res = .badCmd then answer faultNO_FILE s
-  else if s.p.state ∈ runningStates then answer faultALREADY_STARTED s
-  else if s.p.state = .unknown then answer faultFAILED s
-  else if s.p.state = .stopping then answer faultABNORMAL_TERMINATION s
   else
+    match startRefusal s.p (res == .badCmd) with
+    | some code => answer code s
+    | none =>
     let s1 := spawn cfg now res s
     if s1.p.spawnerr then answer faultSPAWN_ERROR s1
     else s1 |> transition cfg now mood res .ok |> answer faultSUCCESS
